@@ -12,6 +12,8 @@ import poolcommon as pc
 
 REQUIRED_THEOREMS = [
     "C11_join_true", "C11_join_timeout", "C11_idempotent_start", "C11_idempotent_stop",
+    "C11_workers_exit", "C11_no_sentinel", "C11_restart", "C11_workers_exit_restart", "C11_restart_start", "C11_restart_spawn", "C11_restart_reach", "C11_dead_forever",
+    "C11_stop_no_stuck", "C11_stop_measure", "C11_stop_flag",
     "C11_gen_poolJoinShape", "C11_gen_poolUnlockedAccesses", "C11_gen_poolSpawnRefusal", "C11_gen_poolClearDecrementsTasksOnly",
 ]
 
